@@ -2,6 +2,7 @@
 share, monotonicity); the tables TLC computes from them are replayed on the real fillers and on one-frame containers."""
 import json
 import os
+import re
 import shutil
 import subprocess
 import time
@@ -26,9 +27,22 @@ def go_rows(binary, test, inp, wd, tag, jobs, extra_env=None):
         env = dict(os.environ, VH_IN=inp, VH_OUT=outp, VH_FROM=str(i), VH_STEP=str(jobs))
         env.update(extra_env or {})
         p = subprocess.run([binary, "-test.run", "^%s$" % test, "-test.timeout", "0"], env=env, capture_output=True, text=True, timeout=3000)
-        lines = [json.loads(l) for l in open(outp)] if os.path.exists(outp) else []
+        lines = []
+        for l in (open(outp) if os.path.exists(outp) else []):
+            try:
+                lines.append(json.loads(l))
+            except ValueError:
+                break   # the worker died in the middle of a line
         if not lines or "done" not in lines[-1]:
-            raise core.Infra("%s worker %d did not finish: %s" % (test, i, (p.stdout + p.stderr)[-1500:]))
+            out = p.stdout + p.stderr
+            m = re.search(r"^(panic: .*|fatal error: .*|WARNING: DATA RACE)$", out, re.M)
+            if m and re.search(r"^github\.com/vbauerster/mpb/v8[./(]", out, re.M):
+                # the process was taken down while the real code was executing a case (a Go runtime fault such as
+                # concurrent map writes cannot be recovered by the driver): that is behaviour of the code under test
+                lines.append({"row": -1 - i, "kind": "crash", "msg": "driver process crashed inside library code: " + m.group(1)[:160]})
+                lines.append({"done": max(0, len(lines) - 1), "aborted": True})
+                return lines
+            raise core.Infra("%s worker %d did not finish: %s" % (test, i, out[-1500:]))
         return lines
     bad, done, aborted = [], 0, False
     with ThreadPoolExecutor(max_workers=jobs) as ex:
